@@ -1052,7 +1052,7 @@ class C04Check(StreamCheckBase):
         "actually refused at least one instance whose utility alone would have been granted, or a chunk crossed the budget limit. "
         "Distinct by (subject, adversary family, probe set, budget bucket, window, size bucket)."
     )
-    fault_kinds = ["corrupt_utility", "rechunk", "spurious_dup", "rebudget", "rewindow", "update_before_first_query"]
+    fault_kinds = ["corrupt_utility", "rechunk", "spurious_dup", "rebudget", "rewindow", "update_before_first_query", "strategy_handover", "rejected_update_retried"]
     probes_expected = ["budget_exhausted_inside_chunk", "guard_refused", "grant_at_exact_bound", "nan_utility_seen", "w_eq_1", "budget_eq_1"]
     assumptions = [
         "the caller reports to update exactly what query returned (honest caller)",
@@ -1110,6 +1110,13 @@ class C04Check(StreamCheckBase):
         elif subject["kind"] == "manager" and subject["cls"] in WINDOW_MANAGERS and len(sc["chunks"]) > 3 and f.chance(0.2):
             # ... or gives it another window (the estimate u_t_ is carried over, documented state)
             sc["rewindow"] = {"at": f.randrange(1, len(sc["chunks"]) - 1), "w": f.pick([1, 2, 5, 10, 100, 4 * int(w)])}
+        if subject["kind"] == "strategy" and "budget_manager" not in p and subject["cls"] in ZLIOBAITE + ["StreamDensityBasedAL", "CognitiveDualQueryStrategy"] and len(sc["chunks"]) > 3 and f.chance(0.12):
+            # the caller re-creates the strategy in the middle of the stream and hands it the used manager
+            # (budget_manager=old.budget_manager_): the manager's spending record travels with it
+            sc["handover"] = {"at": f.randrange(1, len(sc["chunks"]) - 1)}
+        if len(sc["chunks"]) > 2 and f.chance(0.12):
+            # a report with indices that do not belong to the chunk is refused by update and repeated correctly
+            sc["bad_updates"] = sorted(f.sample(range(len(sc["chunks"])), f.pick([1, 1, 2])))
         if f.chance(0.15):
             # a warm-up chunk is reported through update() before the first query (no label acquired):
             # update, not query, performs the lazy initialisation
@@ -1206,6 +1213,18 @@ class C04Check(StreamCheckBase):
                 model["w"] = int(rw["w"])
                 ctx.fault("rewindow")
                 n_at_rebudget, q_at_rebudget = max(pos, 1), q_total
+            ho = sc.get("handover")
+            if ho and ho["at"] == k and hasattr(drv.obj, "budget_manager_"):
+                try:
+                    spec2 = copy.deepcopy(sc["subject"])
+                    new_obj = build(spec2)
+                    new_obj.set_params(budget_manager=drv.obj.budget_manager_, budget=None)
+                    drv.obj = new_obj
+                    ctx.fault("strategy_handover")
+                except Exception as e:
+                    ctx.notes.append(f"handover failed {e!r}")
+                    aborted = True
+                    break
             rb = sc.get("rebudget")
             if rb and rb["at"] == k:
                 try:
@@ -1300,6 +1319,15 @@ class C04Check(StreamCheckBase):
                     ctx.probe("guard_refused")
             if ctx.violations:
                 break
+            if k in set(sc.get("bad_updates", [])):
+                # indices beyond the chunk: must be refused; the correct report follows
+                try:
+                    drv.update_rows(rows, np.array([c + 3], dtype=int), u)
+                    ctx.notes.append("update accepted an index outside the chunk")
+                    aborted = True
+                    break
+                except Exception:
+                    ctx.fault("rejected_update_retried")
             try:
                 drv.update_rows(rows, q, u)
             except Exception as e:
